@@ -110,6 +110,74 @@ func racWrap64(a *big.Int) *big.Int {
 func racWrap64u(a *big.Int) *big.Int {
 	return new(big.Int).Mod(a, new(big.Int).Lsh(big.NewInt(1), 64))
 }
+// racUF evaluates an "uninterpreted" specification function with math/big itself.
+func racUF(name string, a ...*big.Int) *big.Int {
+	z := new(big.Int)
+	u := func(k int) uint {
+		if !a[k].IsUint64() || a[k].Uint64() > 1<<20 {
+			return 1 << 20
+		}
+		return uint(a[k].Uint64())
+	}
+	switch name {
+	case "uf_and":
+		return z.And(a[0], a[1])
+	case "uf_andnot":
+		return z.AndNot(a[0], a[1])
+	case "uf_or":
+		return z.Or(a[0], a[1])
+	case "uf_xor":
+		return z.Xor(a[0], a[1])
+	case "uf_not":
+		return z.Not(a[0])
+	case "uf_lsh":
+		return z.Lsh(a[0], u(1))
+	case "uf_rsh":
+		return z.Rsh(a[0], u(1))
+	case "uf_div":
+		if a[1].Sign() == 0 {
+			return z
+		}
+		return z.Div(a[0], a[1])
+	case "uf_mod":
+		if a[1].Sign() == 0 {
+			return z
+		}
+		return z.Mod(a[0], a[1])
+	case "uf_sqrt":
+		if a[0].Sign() < 0 {
+			return z
+		}
+		return z.Sqrt(a[0])
+	case "uf_mulrange":
+		return z.MulRange(racI64(a[0]), racI64(a[1]))
+	case "uf_binomial":
+		return z.Binomial(racI64(a[0]), racI64(a[1]))
+	case "uf_setbit":
+		if a[1].Sign() < 0 {
+			return z
+		}
+		return z.SetBit(a[0], int(u(1)), uint(u(2)&1))
+	case "uf_tzb":
+		return z.SetUint64(uint64(a[0].TrailingZeroBits()))
+	case "uf_modinv":
+		if a[1].Sign() == 0 || z.ModInverse(a[0], a[1]) == nil {
+			return new(big.Int)
+		}
+		return z
+	case "uf_gcd":
+		return z.GCD(nil, nil, a[0], a[1])
+	case "uf_bezx":
+		x := new(big.Int)
+		z.GCD(x, nil, a[0], a[1])
+		return x
+	case "uf_bezy":
+		y := new(big.Int)
+		z.GCD(nil, y, a[0], a[1])
+		return y
+	}
+	return z
+}
 func racStr(s string) *big.Int {
 	if s == "" {
 		return big.NewInt(0)
@@ -460,6 +528,12 @@ func (W *World) racTest(fn *ssa.Function, fc *FuncContract) (string, error) {
 		}
 	}
 	sb.WriteString("\t\tif only__ >= 0 && trial__ != only__ { continue }\n")
+	// non-nil defaults
+	for i, p := range fn.Params {
+		if _, isPtr := p.Type().Underlying().(*types.Pointer); isPtr && !fc.Nilable[params[i].name] {
+			fmt.Fprintf(&sb, "\t\tif %s == nil { continue }\n", params[i].name)
+		}
+	}
 	// requires
 	pre := newEnv(false)
 	for _, rq := range fc.Requires {
@@ -468,12 +542,6 @@ func (W *World) racTest(fn *ssa.Function, fc *FuncContract) (string, error) {
 			continue
 		}
 		fmt.Fprintf(&sb, "\t\tif !(%s) { continue }\n", s)
-	}
-	// non-nil defaults
-	for i, p := range fn.Params {
-		if _, isPtr := p.Type().Underlying().(*types.Pointer); isPtr && !fc.Nilable[params[i].name] {
-			fmt.Fprintf(&sb, "\t\tif %s == nil { continue }\n", params[i].name)
-		}
 	}
 	// describe + snapshot
 	sb.WriteString("\t\tdesc__ := \"\"\n")
@@ -633,6 +701,9 @@ func runRAC(W *World, src string, env []string, timeout time.Duration) (string, 
 	defer os.RemoveAll(dir)
 	testFile := filepath.Join(dir, "zz_verif_replay_test.go")
 	os.WriteFile(testFile, []byte(src), 0o644)
+	if k := os.Getenv("APDVC_KEEP"); k != "" {
+		os.WriteFile(k, []byte(src), 0o644)
+	}
 	ov := map[string]map[string]string{"Replace": {filepath.Join(W.repoDir, "zz_verif_replay_test.go"): testFile}}
 	ovData, _ := json.Marshal(ov)
 	ovFile := filepath.Join(dir, "overlay.json")
